@@ -431,6 +431,28 @@ func ResponsePlacement(sp *spec.Spec, m *spec.Method, ex *rt.Exchange, v *Verdic
 			bodyIsObject = true
 		}
 	}
+	explicitBody := resp != nil && (resp.Body == "empty" || strings.HasPrefix(resp.Body, "attr:"))
+	if explicitBody {
+		// Body(Empty): nothing may be written; Body("attr"): the body IS the encoding of that attribute
+		switch {
+		case resp.Body == "empty" && len(strings.TrimSpace(string(w.Body))) > 0:
+			v.add("result-wire-placement:body:explicit-empty:not-empty", "the selected response declares Body(Empty) but a body was written: %s", trunc(string(w.Body), 120))
+		case strings.HasPrefix(resp.Body, "attr:"):
+			name := strings.TrimPrefix(resp.Body, "attr:")
+			if val, ok := res[name]; ok && val != nil && !vtree.Empty(vtree.Norm(val)) {
+				var got any
+				dec := json.NewDecoder(strings.NewReader(string(w.Body)))
+				dec.UseNumber()
+				if err := dec.Decode(&got); err != nil {
+					v.add("result-wire-placement:body:explicit-attr:not-json", "the selected response declares Body(%q) but the body does not decode: %s", name, trunc(string(w.Body), 120))
+				} else if o, isObj := got.(map[string]any); isObj {
+					if _, wrapped := o[name]; wrapped && kindOf(sp, rrt.Attr(name).Type) != "object" {
+						v.add("result-wire-placement:body:explicit-attr:wrapped", "the selected response declares Body(%q): the body must be the value itself, not an object holding it: %s", name, trunc(string(w.Body), 120))
+					}
+				}
+			}
+		}
+	}
 	inBody := map[string]bool{}
 	for _, a := range rrt.Attrs {
 		if cases.RespLocOf(resp, a.Name) == valgen.Body {
@@ -441,6 +463,9 @@ func ResponsePlacement(sp *spec.Spec, m *spec.Method, ex *rt.Exchange, v *Verdic
 		val, present := res[a.Name]
 		if !present || val == nil || vtree.Empty(vtree.Norm(val)) {
 			continue
+		}
+		if explicitBody && cases.RespLocOf(resp, a.Name) == valgen.Body {
+			continue // judged above (the body attribute) or dropped by design
 		}
 		if a.HasDef && vtree.IsZeroLeaf(val) {
 			continue
